@@ -103,7 +103,7 @@ def shards(tier: str) -> list:
     fn = "h08_3" if tier == "quick" else "h08_4"
     for st in stages:
         for i in _enabled_first(st):
-            out.append({"fn": fn, "env": {"STAGE": st, "SH0": i}, "cond_timeout": 300 if tier == "quick" else 1800, "path_timeout": 60,
+            out.append({"fn": fn, "env": {"STAGE": st, "SH0": i}, "cond_timeout": 600 if tier == "quick" else 2400, "path_timeout": 60,
                         "desc": f"stage {E.STAGE_NAMES[st]}, first event {E.NAMES[ALPHA[i]]}, then {2 if tier == 'quick' else 3} symbolic events; audit after the close"})
     return out
 
